@@ -80,18 +80,20 @@ def build_world(ctx, rng, base, git):
     (proj / "notes.unknownext").write_text("notes\n")
     ignored = set()
     if git:
-        trees.git_init(proj)
-        (proj / ".gitignore").write_text("*.ign\nbuild/\n")
+        # "outer": the project is a subdirectory of a larger work tree, which is where .git and the ignore rules live
+        top = proj if git != "outer" else base
+        trees.git_init(top)
+        (top / ".gitignore").write_text("*.ign\nbuild/\n")
         (proj / "gen.ign").write_text("generated\n")
         (proj / "build").mkdir()
         (proj / "build" / "out.py").write_text("o = 1\n")
         (proj / "docs2" / "also.ign").write_text("g\n")
         ignored = {"gen.ign", "build/out.py", "docs2/also.ign"}
-        trees.git(proj, "add", "-A", check=False)
-        trees.git(proj, "commit", "-q", "-m", "init", check=False)
+        trees.git(top, "add", "-A", check=False)
+        trees.git(top, "commit", "-q", "-m", "init", check=False)
     covered = set(trees.spec_expect(recipe)["covered"]) | {"docs2/real.py", "readonly.py", "notes.unknownext", "docs2-legacy/old.py",
                                                             "docs2-legacy/deep/older.py", "docs2.cfg"}
-    if git:
+    if git and git != "outer":
         covered.add(".gitignore")
     return proj, sent, recipe, covered, ignored
 
@@ -168,7 +170,7 @@ def judge(res, base, proj, before, after, events, allowed, label, args, git, via
     diff = snap_diff(before, after)
     tolerated = []
     for rel, what in sorted(diff.items()):
-        if rel.startswith("proj/.git/") or rel == "proj/.git":
+        if rel.startswith(("proj/.git/", ".git/")) or rel in ("proj/.git", ".git"):
             tolerated.append(rel)
             continue
         if rel in allowed:
@@ -188,7 +190,7 @@ def judge(res, base, proj, before, after, events, allowed, label, args, git, via
             if not p or not p.startswith(basep):
                 continue
             rel = os.path.relpath(p, base)
-            if rel.startswith("proj/.git/") or rel in allowed:
+            if rel.startswith(("proj/.git/", ".git/")) or rel in allowed:
                 continue
             if rel in before or rel in after:
                 if before.get(rel) == after.get(rel):
@@ -251,7 +253,7 @@ def run_case(case, ctx):
     base.mkdir()
     outdir = ctx.scratch / f"c15-{case['k']}-out"
     outdir.mkdir()
-    git = case["k"] % 3 == 0
+    git = (True, False, False, "outer", False, False)[case["k"] % 6]
     try:
         proj, sent, recipe, covered, ignored = build_world(ctx, rng, base, git)
         i = 0
@@ -291,6 +293,7 @@ def run_case(case, ctx):
                         ok = judge(res, base, proj, before, after, events, allowed, label, cmd, git)
                 res.n += 1
                 res.cell("cmd:" + label)
+                res.cell(f"vcs:{git}")
                 if ok:
                     res.sigs.add(short_hash(label, [a for a in cmd if not a.startswith("/")], case["k"], i))
                 if res.sample is None and label == "annotate-recursive":
